@@ -1,6 +1,7 @@
 package main
 
 import (
+	"bytes"
 	"encoding/binary"
 	"fmt"
 	"math/big"
@@ -111,9 +112,10 @@ func (d netDesc) tla() map[string]any {
 type chainDesc struct {
 	Kind   string   `json:"kind"` // "skeleton" | "random" | "mag"
 	Net    netDesc  `json:"net"`
-	TS     []int    `json:"ts,omitempty"` // skeleton: timestamp of header i (seconds since genesis)
-	M2     []int    `json:"m2,omitempty"` // skeleton: twice the median the model validated it against
+	TS     []inst   `json:"ts,omitempty"`  // skeleton: instant of header i (nanoseconds since genesis)
+	Med    []inst   `json:"med,omitempty"` // skeleton: the median the model validated it against
 	Choice []int    `json:"choice,omitempty"`
+	Frac   int      `json:"frac"` // sub-second class of the chain's instants (fracNs)
 	Regime int      `json:"regime,omitempty"`
 	Seed   int64    `json:"seed,omitempty"`
 	Steps  int      `json:"steps"`
@@ -131,7 +133,71 @@ func workBig(w consensus.Work) *big.Int {
 	x, _ := new(big.Int).SetString(w.String(), 10)
 	return x
 }
-func off(t time.Time) int { return int(t.Unix() - genesisTime.Unix()) }
+
+// ---------------------------------------------------------------------------
+// instants: the specification's <<seconds, nanoseconds>> since the genesis timestamp; the harness keeps them as
+// one int64 of nanoseconds
+
+type inst = int64
+
+const giga = 1_000_000_000
+
+func floorDiv(a, b int64) int64 {
+	q := a / b
+	if a%b != 0 && (a < 0) != (b < 0) {
+		q--
+	}
+	return q
+}
+func secOf(t inst) int64       { return floorDiv(t, giga) }
+func nsOf(t inst) int64        { return t - secOf(t)*giga }
+func pair(t inst) []int        { return []int{int(secOf(t)), int(nsOf(t))} }
+func instOf(t time.Time) inst  { return (t.Unix()-genesisTime.Unix())*giga + int64(t.Nanosecond()) }
+func at(t inst) time.Time      { return genesisTime.Add(time.Duration(t)) }
+func whole(sec int64) inst     { return sec * giga }
+func fracClassName(f int) string {
+	return [...]string{"whole", "plus1ns", "plus999999999ns", "alternating", "random"}[f]
+}
+
+// fracNs is the sub-second part of header i of a chain of class f (DifficultySkel!FracNs; class 4, seeded random
+// nanoseconds, exists for the long random chains only).
+func fracNs(f int, i int, r *rand.Rand) int64 {
+	switch f {
+	case 1:
+		return 1
+	case 2:
+		return giga - 1
+	case 3:
+		if i%2 == 1 {
+			return giga - 1
+		}
+		return 0
+	case 4:
+		return r.Int63n(giga)
+	}
+	return 0
+}
+
+// representations of one instant: the time zone and the monotonic clock reading of a time.Time are not part of the
+// instant. All monotonic readings derive from one base, so that differences between them are exact.
+var monoBase = time.Now()
+var otherZone = time.FixedZone("c13", 5*3600+1800)
+
+func rep(t time.Time, k int) time.Time {
+	var u time.Time
+	switch k % 3 {
+	case 0:
+		u = t.UTC()
+	case 1:
+		u = t.In(otherZone)
+	default:
+		u = monoBase.Add(t.Sub(monoBase))
+	}
+	if !u.Equal(t) || u.Unix() != t.Unix() || u.Nanosecond() != t.Nanosecond() {
+		panic(fmt.Sprintf("harness: representation %d of %v is another instant: %v", k%3, t, u))
+	}
+	return u
+}
 
 // logState records every proof-of-work field of a state.
 func logState(s consensus.State) (m map[string]any, panicked string) {
@@ -139,9 +205,9 @@ func logState(s consensus.State) (m map[string]any, panicked string) {
 	if n > len(s.PrevTimestamps) {
 		n = len(s.PrevTimestamps)
 	}
-	prev := make([]int, n)
+	prev := make([][]int, n)
 	for i := range prev {
-		prev[i] = off(s.PrevTimestamps[i])
+		prev[i] = pair(instOf(s.PrevTimestamps[i]))
 	}
 	var pt types.BlockID
 	if p, v := vlib.Recover(func() { pt = s.PoWTarget() }); p {
@@ -173,6 +239,10 @@ type stepMeta struct {
 	decisive map[string]string // candidate kind -> "accept" | "reject:<conjunct>" (the only false conjunct) | "reject:multi"
 	sig      string            // identity of the step for distinctness
 	limbs    limbFacts         // at which magnitude the step took place and which limb boundaries its arithmetic crossed
+	frac      int  // sub-second class of the chain
+	subsec    bool // the applied instant is not on a whole second
+	medSubsec bool // the median the candidates were judged against is not on a whole second
+	truncDecides bool // the instant of the "time" candidate is not before the median, its second is
 }
 
 type chainRun struct {
@@ -221,53 +291,57 @@ func (d chainDesc) keep(child uint64, phase uint64) bool {
 	return (child+phase)%period < 12
 }
 
-// medianCeil2 is twice the median of the previous <= 11 timestamps, from the harness's own history
-// (used only to construct scenarios for random chains; verdicts come from the specification).
-func median2(hist []int) int {
+// medianOf is the median of the previous <= 11 instants, from the harness's own history (Difficulty!Median: an
+// even count takes the mean of the middle two, floored to the nanosecond). It is used only to construct scenarios
+// and for coverage bookkeeping; verdicts come from the specification.
+func medianOf(hist []inst) inst {
 	n := len(hist)
 	if n > 11 {
 		n = 11
 	}
-	w := append([]int(nil), hist[len(hist)-n:]...)
-	sort.Ints(w)
+	w := append([]inst(nil), hist[len(hist)-n:]...)
+	sort.Slice(w, func(i, j int) bool { return w[i] < w[j] })
 	if n%2 == 1 {
-		return 2 * w[n/2]
+		return w[n/2]
 	}
-	return w[n/2-1] + w[n/2]
+	return floorDiv(w[n/2-1]+w[n/2], 2)
 }
 
-func ceilHalf(x int) int {
-	if x >= 0 {
-		return (x + 1) / 2
+// minAdm is the smallest second that is not before the instant m (DifficultySkel!MinAdm).
+func minAdm(m inst) int64 {
+	if nsOf(m) == 0 {
+		return secOf(m)
 	}
-	return -((-x) / 2)
+	return secOf(m) + 1
 }
 
 const farFuture = 3600000
 const maxOffset = 1 << 29
 
-// pickTimestamp resolves one timestamp choice (same table as DifficultySkel.tla).
-func pickTimestamp(c int, hist []int, interval int) int {
-	mc := ceilHalf(median2(hist))
-	p := hist[len(hist)-1]
-	var cand int
+// pickTimestamp resolves one timestamp choice to a second (same table as DifficultySkel!Resolve); f is the
+// sub-second part the header holds in memory. hist holds the seconds of the window (what the state records).
+func pickTimestamp(c int, hist []inst, interval int, f int64) inst {
+	mc := minAdm(medianOf(hist))
+	p := secOf(hist[len(hist)-1])
+	iv := int64(interval)
+	var cand int64
 	switch c {
 	case 0:
-		cand = p + interval
+		cand = p + iv
 	case 1:
 		cand = mc
 	case 2:
-		cand = mc + interval
+		cand = mc + iv
 	case 3:
-		cand = p + interval/3
+		cand = p + iv/3
 	case 4:
-		cand = p + 3*interval
+		cand = p + 3*iv
 	case 5:
 		cand = p - 1
 	case 6:
 		cand = p + farFuture
 		if cand > maxOffset {
-			cand = p + interval
+			cand = p + iv
 		}
 	default:
 		cand = p
@@ -275,13 +349,13 @@ func pickTimestamp(c int, hist []int, interval int) int {
 	if cand < mc {
 		cand = mc
 	}
-	return cand
+	return whole(cand) + f
 }
 
-// regimeTimestamp chooses the next timestamp of a random chain.
-func regimeTimestamp(regime int, r *rand.Rand, st *regimeState, hist []int, interval int, i int) int {
-	mc := ceilHalf(median2(hist))
-	p := hist[len(hist)-1]
+// regimeTimestamp chooses the next instant of a random chain: the regime chooses the second, f is the sub-second part.
+func regimeTimestamp(regime int, r *rand.Rand, st *regimeState, hist []inst, interval int, i int, f int64) inst {
+	mc := int(minAdm(medianOf(hist)))
+	p := int(secOf(hist[len(hist)-1]))
 	ts := p + interval
 	switch regime {
 	case 0: // honest with jitter
@@ -301,7 +375,7 @@ func regimeTimestamp(regime int, r *rand.Rand, st *regimeState, hist []int, inte
 	case 5:
 		ts = mc + r.Intn(3)
 	case 6: // every step an independent choice
-		ts = pickTimestamp(r.Intn(8), hist, interval)
+		return pickTimestamp(r.Intn(8), hist, interval, f)
 	case 7: // phases of 20..200 steps under one choice
 		if st.left == 0 {
 			st.left = 20 + r.Intn(181)
@@ -311,7 +385,7 @@ func regimeTimestamp(regime int, r *rand.Rand, st *regimeState, hist []int, inte
 			}
 		}
 		st.left--
-		ts = pickTimestamp(st.choice, hist, interval)
+		return pickTimestamp(st.choice, hist, interval, f)
 	case 8: // decreasing within the rule
 		ts = p - 1
 	case 9: // alternate fast and slow bursts (oscillation)
@@ -321,16 +395,13 @@ func regimeTimestamp(regime int, r *rand.Rand, st *regimeState, hist []int, inte
 			ts = p + 3*interval
 		}
 	}
+	if ts > maxOffset {
+		ts = p
+	}
 	if ts < mc {
 		ts = mc
 	}
-	if ts > maxOffset {
-		ts = p
-		if ts < mc {
-			ts = mc
-		}
-	}
-	return ts
+	return whole(int64(ts)) + f
 }
 
 const nRegimes = 10
@@ -360,12 +431,47 @@ func mine(bh types.BlockHeader, target types.BlockID, residue, factor, start uin
 
 func nonceLimbs(n uint64) []int { return vlib.Limbs(new(big.Int).SetUint64(n)) }
 
+// recode passes a block through its encoding, as a peer receives it.
+func recode(b types.Block) (out types.Block, err error) {
+	var buf bytes.Buffer
+	e := types.NewEncoder(&buf)
+	if b.V2 != nil {
+		types.V2Block(b).EncodeTo(e)
+	} else {
+		types.V1Block(b).EncodeTo(e)
+	}
+	if err = e.Flush(); err != nil {
+		return
+	}
+	d := types.NewBufDecoder(buf.Bytes())
+	if b.V2 != nil {
+		(*types.V2Block)(&out).DecodeFrom(d)
+	} else {
+		(*types.V1Block)(&out).DecodeFrom(d)
+	}
+	return out, d.Err()
+}
+
+// recodeHeader passes a header through its encoding.
+func recodeHeader(bh types.BlockHeader) (out types.BlockHeader, err error) {
+	var buf bytes.Buffer
+	e := types.NewEncoder(&buf)
+	bh.EncodeTo(e)
+	if err = e.Flush(); err != nil {
+		return
+	}
+	d := types.NewBufDecoder(buf.Bytes())
+	out.DecodeFrom(d)
+	return out, d.Err()
+}
+
 // run executes the chain on the real code and returns the trace lines.
 // upto > 0 stops after that many steps (replays).
 func (d chainDesc) run(chainID int, upto int) *chainRun {
 	out := &chainRun{}
 	n := d.Net.network()
 	r := rand.New(rand.NewSource(d.Seed*1000003 + int64(chainID)))
+	fr := rand.New(rand.NewSource(d.Seed*7368787 + int64(chainID))) // sub-second parts of class 4
 	interval := d.Net.Interval
 	steps := d.Steps
 	if upto > 0 && upto < steps {
@@ -386,16 +492,16 @@ func (d chainDesc) run(chainID int, upto int) *chainRun {
 		return out
 	}
 	tsHist := []time.Time{genesis.Timestamp}
-	offs := []int{0}
+	offs := []inst{0}
 	if d.Kind == "mag" {
 		// the chain starts from a constructed state: the history behind it is on schedule
 		cs = d.Mag.state(cs, d.Net)
 		for h := 1; h <= int(d.Mag.Start); h++ {
-			offs = append(offs, h*interval)
-			tsHist = append(tsHist, genesisTime.Add(time.Duration(h*interval)*time.Second))
+			offs = append(offs, whole(int64(h*interval)))
+			tsHist = append(tsHist, at(whole(int64(h*interval))))
 		}
 	}
-	hs := cs
+	hs, xs := cs, cs
 	ids := []types.BlockID{cs.Index.ID}
 	reset := func(cont bool, i int) {
 		s, pn := logState(cs)
@@ -408,17 +514,17 @@ func (d chainDesc) run(chainID int, upto int) *chainRun {
 
 	for i := 1; i <= steps; i++ {
 		child := cs.Index.Height + 1
-		// ---- scenario: the timestamp
-		var tsOff int
-		m2 := 0
+		// ---- scenario: the instant
+		var tsOff, med inst
+		f := fracNs(d.Frac, i, fr)
 		if d.Kind == "skeleton" {
-			tsOff, m2 = d.TS[i-1], d.M2[i-1]
+			tsOff, med = d.TS[i-1], d.Med[i-1]
 		} else if d.Kind == "mag" {
-			tsOff = pickTimestamp(d.Regime, offs, interval)
+			tsOff = pickTimestamp(d.Regime, offs, interval, f)
 		} else {
-			tsOff = regimeTimestamp(d.Regime, r, rst, offs, interval, i)
+			tsOff = regimeTimestamp(d.Regime, r, rst, offs, interval, i, f)
 		}
-		ts := genesisTime.Add(time.Duration(tsOff) * time.Second)
+		ts := at(tsOff)
 		var anc time.Time // the ancestor a node would supply: 1000 blocks back, or genesis
 		if child > 1000 {
 			anc = tsHist[len(tsHist)-1000]
@@ -438,9 +544,9 @@ func (d chainDesc) run(chainID int, upto int) *chainRun {
 			segLen = 0
 		}
 		logged = keep
-		prevCs, prevHs := cs, hs
+		prevCs, prevHs, prevXs := cs, hs, xs
 		line := map[string]any{"ev": "step", "chain": chainID, "i": i, "panic": ""}
-		meta := &stepMeta{child: child, era: eraOf(d.Net, child), decisive: map[string]string{}}
+		meta := &stepMeta{child: child, era: eraOf(d.Net, child), decisive: map[string]string{}, frac: d.Frac, subsec: nsOf(tsOff) != 0}
 		// the factor the specification demands of the child's nonce (Difficulty!Factor, over naturals: child < asic);
 		// the candidates are built from the scenario, never from what the code under test believes
 		factor := uint64(1)
@@ -452,9 +558,8 @@ func (d chainDesc) run(chainID int, upto int) *chainRun {
 
 		if keep {
 			// ---- candidate headers, validated against the state before the step
-			mc := ceilHalf(median2(offs))
-			if d.Kind == "skeleton" {
-				mc = ceilHalf(m2)
+			if d.Kind != "skeleton" {
+				med = medianOf(offs)
 			}
 			wrong := cs.Index.ID
 			if len(ids) >= 2 && r.Intn(2) == 0 {
@@ -469,13 +574,15 @@ func (d chainDesc) run(chainID int, upto int) *chainRun {
 				residue uint64
 				wantOK  bool
 			}
-			at := func(o int) time.Time { return genesisTime.Add(time.Duration(o) * time.Second) }
 			h2 := hdr
 			h2.ParentID = wrong
+			// the last second before the median with the largest sub-second part (its instant may lie after the
+			// median: the second decides), and the first admissible second with the sub-second part of the step
 			h3 := hdr
-			h3.Timestamp = at(mc - 1)
+			h3.Timestamp = at(whole(minAdm(med)-1) + giga - 1)
 			h4 := hdr
-			h4.Timestamp = at(mc)
+			h4.Timestamp = at(whole(minAdm(med)) + nsOf(tsOff))
+			meta.truncDecides = whole(minAdm(med)-1)+giga-1 >= med
 			res := uint64(0)
 			if factor > 1 {
 				res = 1 + uint64(r.Int63n(int64(factor-1)))
@@ -488,8 +595,21 @@ func (d chainDesc) run(chainID int, upto int) *chainRun {
 					hdr = bh
 					b.Nonce = bh.Nonce
 				}
-				var e1, e2 error
-				if p, v := vlib.Recover(func() { e1 = consensus.ValidateHeader(cs, bh); e2 = consensus.ValidateHeader(hs, bh) }); p {
+				// ... the same header with its instant in another representation
+				bhr := bh
+				bhr.Timestamp = rep(bh.Timestamp, chainID+i+ci)
+				var e1, e2, e3, e4 error
+				if p, v := vlib.Recover(func() {
+					e1 = consensus.ValidateHeader(cs, bh)
+					e2 = consensus.ValidateHeader(hs, bh)
+					e3 = consensus.ValidateHeader(cs, bhr)
+					// ... and as it comes back from its encoding
+					bhd, err := recodeHeader(bh)
+					if err != nil || bhd.ID() != bh.ID() {
+						panic(fmt.Sprintf("the header does not come back from its encoding (%v)", err))
+					}
+					e4 = consensus.ValidateHeader(cs, bhd)
+				}); p {
 					line["panic"] = fmt.Sprintf("ValidateHeader(%s): %v", c.kind, v)
 				}
 				pi := 1
@@ -497,14 +617,14 @@ func (d chainDesc) run(chainID int, upto int) *chainRun {
 					pi = 2
 				}
 				id := bh.ID()
-				logc = append(logc, map[string]any{"k": c.kind, "p": pi, "ts": off(bh.Timestamp), "nonce": nonceLimbs(bh.Nonce),
-					"id": vlib.Limbs(idBig(id)), "ok": e1 == nil, "okh": e2 == nil})
+				logc = append(logc, map[string]any{"k": c.kind, "p": pi, "ts": pair(instOf(bh.Timestamp)), "nonce": nonceLimbs(bh.Nonce),
+					"id": vlib.Limbs(idBig(id)), "ok": e1 == nil, "okh": e2 == nil, "okr": e3 == nil, "okd": e4 == nil})
 				// coverage bookkeeping (not a verdict): which conjuncts hold
 				var bad []string
 				if pi != 1 {
 					bad = append(bad, "parent")
 				}
-				if 2*off(bh.Timestamp) < median2(offs) {
+				if whole(secOf(instOf(bh.Timestamp))) < medianOf(offs) {
 					bad = append(bad, "time")
 				}
 				if bh.Nonce%factor != 0 {
@@ -524,7 +644,8 @@ func (d chainDesc) run(chainID int, upto int) *chainRun {
 			}
 			line["cands"] = logc
 			line["parents"] = [][]int{vlib.Limbs(idBig(cs.Index.ID)), vlib.Limbs(idBig(wrong))}
-			line["hasM2"], line["m2"] = d.Kind == "skeleton", m2
+			line["hasMed"], line["med"] = d.Kind == "skeleton", pair(med)
+			meta.medSubsec = nsOf(medianOf(offs)) != 0
 		}
 
 		// ---- the step itself: header-only and full, in lock-step
@@ -533,6 +654,18 @@ func (d chainDesc) run(chainID int, upto int) *chainRun {
 		}
 		if p, v := vlib.Recover(func() { hs = consensus.ApplyHeader(prevHs, b.Header(), anc) }); p {
 			line["panic"] = fmt.Sprintf("ApplyHeader: %v", v)
+		}
+		// ---- a third chain: the entry points in alternation, every instant in another representation
+		xb := b
+		xb.Timestamp = rep(ts, chainID+i)
+		if p, v := vlib.Recover(func() {
+			if i%2 == 0 {
+				xs = consensus.ApplyHeader(prevXs, xb.Header(), anc)
+			} else {
+				xs, _ = consensus.ApplyBlock(prevXs, xb, consensus.V1BlockSupplement{}, anc)
+			}
+		}); p {
+			line["panic"] = fmt.Sprintf("ApplyHeader/ApplyBlock(alternating): %v", v)
 		}
 		if line["panic"] != "" {
 			if !keep { // a panic in a step that was not going to be logged: log it after re-seeding the state before it
@@ -543,25 +676,48 @@ func (d chainDesc) run(chainID int, upto int) *chainRun {
 			return out
 		}
 		tsHist = append(tsHist, ts)
-		offs = append(offs, tsOff)
+		offs = append(offs, whole(secOf(tsOff))) // the window holds the encoded second
 		ids = append(ids, cs.Index.ID)
 		if !keep {
 			continue
 		}
 		segLen++
-		var pn1, pn2 string
+		var pn1, pn2, pn3 string
 		line["f"], pn1 = logState(cs)
 		line["h"], pn2 = logState(hs)
-		if pn1+pn2 != "" {
-			line["panic"] = pn1 + pn2
+		line["x"], pn3 = logState(xs)
+		if pn1+pn2+pn3 != "" {
+			line["panic"] = pn1 + pn2 + pn3
+		}
+		// ---- the block and the header as they come back from their encoding, applied to the state before the step
+		var df, dh consensus.State
+		if p, v := vlib.Recover(func() {
+			db, err := recode(b)
+			if err != nil || db.ID() != b.ID() {
+				panic(fmt.Sprintf("the block does not come back from its encoding (%v)", err))
+			}
+			dbh, err := recodeHeader(b.Header())
+			if err != nil || dbh.ID() != b.ID() {
+				panic(fmt.Sprintf("the header does not come back from its encoding (%v)", err))
+			}
+			df, _ = consensus.ApplyBlock(prevCs, db, consensus.V1BlockSupplement{}, anc)
+			dh = consensus.ApplyHeader(prevHs, dbh, anc)
+		}); p {
+			line["panic"] = fmt.Sprintf("Decode(Encode): %v", v)
+		}
+		var pn4, pn5 string
+		line["df"], pn4 = logState(df)
+		line["dh"], pn5 = logState(dh)
+		if line["panic"] == "" && pn4+pn5 != "" {
+			line["panic"] = pn4 + pn5
 		}
 		// ---- fork choice: a sibling of the new tip (same parent, another admissible timestamp)
-		altOff := ceilHalf(median2(offs[:len(offs)-1])) + r.Intn(2*interval+1)
+		altOff := whole(minAdm(medianOf(offs[:len(offs)-1]))+int64(r.Intn(2*interval+1))) + nsOf(tsOff)
 		if altOff == tsOff {
-			altOff++
+			altOff += giga
 		}
 		alt := hdr
-		alt.Timestamp = genesisTime.Add(time.Duration(altOff) * time.Second)
+		alt.Timestamp = at(altOff)
 		var sib consensus.State
 		hv := make([]bool, 4)
 		if p, v := vlib.Recover(func() {
